@@ -397,12 +397,13 @@ static void run_ctor(void) {
     char key[200];
     for (int ts = 0; ts <= 1; ts++) {
         TS = ts;
-        long N; { va_arm(0, 0); void *d = SUBJ.make(0, ts); N = va_calls; va_disarm(); if (d) SUBJ.destroy(d); }
+        int cst = !strncmp(SUBJ.name, "qvector", 7) ? 5 : 0;     /* vector: an empty vector with capacity 2, so that the buffer allocation is part of the constructor */
+        long N; { va_arm(0, 0); void *d = SUBJ.make(cst, ts); N = va_calls; va_disarm(); if (d) SUBJ.destroy(d); }
         for (int from = 0; from < 2; from++) for (long k = 1; k <= N; k++) {
             snprintf(key, sizeof key, "ctor:%s:%d:%ld:%d", SUBJ.name, ts, k, from);
             if (!vc_case(SUBJ.name, key)) continue;
             n_cases++; long l0 = va_live; lk_mutex = NULL;
-            va_arm(k, from); errno = 0; void *o = SUBJ.make(0, ts); int e = errno; long nf = va_failed; va_disarm();
+            va_arm(k, from); errno = 0; void *o = SUBJ.make(cst, ts); int e = errno; long nf = va_failed; va_disarm();
             if (nf) n_hit++; else n_not_hit++;
             char cls[160], suf[2048];
             if (o) { n_completed++; SUBJ.suffix(o, suf); SUBJ.destroy(o); outcome(SUBJ.name, "ctor:completed"); }
